@@ -1,6 +1,7 @@
 #!/bin/bash
 # Must-fail corpus on scratch copies of /repo's working tree, several items at a time
 # (never touches /repo or the evidence):   tools/selftest_parallel.sh [workers] [name-substring]
+# SELFTEST_LIST=<file with one diff path per line> restricts the run to those items.
 cd "$(dirname "$0")/.."
 export GOFLAGS=-mod=mod GOPROXY=off GOSUMDB=off GOTOOLCHAIN=local
 W="${1:-4}"; FILTER="${2:-}"
@@ -19,7 +20,7 @@ one() {
   rm -rf "$SCR"
 }
 export -f one
-ls selftest/mutants/*.diff seeded/*/patch.diff | grep -- "$FILTER" | xargs -P "$W" -I{} bash -c 'one {}' | tee /tmp/selftest-parallel.out
+(if [ -n "$SELFTEST_LIST" ]; then cat "$SELFTEST_LIST"; else ls selftest/mutants/*.diff seeded/*/patch.diff | grep -- "$FILTER"; fi) | xargs -P "$W" -I{} bash -c 'one {}' | tee /tmp/selftest-parallel.out
 det=$(grep -c "^ok " /tmp/selftest-parallel.out); miss=$(grep -c "^MISS" /tmp/selftest-parallel.out); skip=$(grep -c "^SKIP" /tmp/selftest-parallel.out)
 echo "selftest(parallel): $det detected, $miss missed, $skip skipped"
 [ "$miss" = 0 ]
